@@ -27,7 +27,8 @@ def main():
     subprocess.check_call(["git", "-C", "/repo", "worktree", "add", "-q", "--detach", wt, "HEAD"])
     results = {}
     try:
-        subprocess.check_call(["git", "-C", wt, "apply", patch])
+        if subprocess.call(["git", "-C", wt, "apply", patch], stderr=subprocess.DEVNULL) != 0:
+            subprocess.check_call(["git", "-C", wt, "apply", "--3way", patch])
         env = dict(os.environ, VERIF_REPO=wt, VERIF_EVIDENCE_DIR=ev, VERIF_NO_SELFTEST="1")
         for p in props:
             pr = subprocess.run(["/venv/bin/python", "-m", "sa.check", p, "--tier", "quick"], cwd=VERIF, env=env,
